@@ -526,6 +526,13 @@ class BodyGen:
         self.env.locals = []
         self.eg = ExprGen(r, self.env)
         body, _ = self.coro_body(r.randint(1, 4), depth, False, False, in_sub=True)
+        if not body or body[0][0] == 'ret':
+            # a sub-coroutine that finishes without doing anything is not an "action": whether an await that
+            # follows it at the very start of a process still counts as the first action is not settled by the
+            # property statement, so such bodies are not generated
+            body = self.simple() + body
+            if not body or body[0][0] == 'ret':
+                body = [('var', self.marker[0].src, f"({self.marker[0].src} + 1)")] + body
         ret = None
         if r.random() < 0.4:
             ret = r.choice([('u', 3), ('u', 2), ('bit', None)])
